@@ -345,4 +345,64 @@ example : (run (init 3) [.add 1 10, .add 2 20, .get 1, .add 3 30, .add 4 40, .ge
 
 example : 2 ≤ (init 2).cap ∧ (step (init 2) (.add 0 0)).2 = .val 0 := by decide
 
+/-! ### byte budget → capacity (`with_maximum_size`) -/
+
+/-- The capacity derived from the byte budget is the largest number of pairs that fits. -/
+theorem capacityOf_spec {bytes per cap : Nat} (h : capacityOf bytes per = some cap) :
+    1 ≤ cap ∧ 0 < per ∧ cap * per ≤ bytes ∧ bytes < (cap + 1) * per := by
+  unfold capacityOf at h
+  split at h
+  · simp at h
+  · rename_i hp
+    split at h
+    · simp at h
+    · rename_i hc
+      have hcap : cap = bytes / per := by simpa using h.symm
+      subst hcap
+      have hpp : 0 < per := Nat.pos_of_ne_zero hp
+      refine ⟨by omega, hpp, Nat.div_mul_le_self bytes per, ?_⟩
+      have := Nat.lt_div_mul_add (a := bytes) hpp
+      rw [Nat.add_mul]; omega
+
+/-- The constructor panics exactly when not even one pair fits (or the pair is zero-sized:
+    division by zero). -/
+theorem capacityOf_none_iff (bytes per : Nat) :
+    capacityOf bytes per = none ↔ (per = 0 ∨ bytes < per) := by
+  unfold capacityOf
+  by_cases hp : per = 0
+  · simp [hp]
+  · have hpp : 0 < per := Nat.pos_of_ne_zero hp
+    simp only [hp, if_false, false_or]
+    constructor
+    · intro h
+      split at h
+      · rename_i hc
+        have : bytes / per = 0 := Nat.lt_one_iff.mp hc
+        exact (Nat.div_eq_zero_iff.mp this).resolve_left hp
+      · simp at h
+    · intro h
+      have : bytes / per = 0 := Nat.div_eq_of_lt h
+      simp [this]
+
+/-- Whatever the history, the entries held never need more bytes than the budget
+    (entries × pair size ≤ budget), at every moment of the run. -/
+theorem maxLen_le {c : Cache} (hi : Inv c) (ops : List Op) : maxLen c ops ≤ c.cap := by
+  induction ops generalizing c with
+  | nil => exact hi.len_le
+  | cons op ops ih =>
+    have h := step_inv hi op
+    have := ih h.1
+    simp only [maxLen]
+    rw [h.2] at this
+    exact Nat.max_le.mpr ⟨hi.len_le, this⟩
+
+theorem budget_respected {bytes per cap : Nat} (h : capacityOf bytes per = some cap) (ops : List Op) :
+    maxLen (init cap) ops * per ≤ bytes := by
+  obtain ⟨h1, _, h3, _⟩ := capacityOf_spec h
+  have := maxLen_le (inv_init cap h1) ops
+  calc maxLen (init cap) ops * per ≤ cap * per := Nat.mul_le_mul_right per this
+    _ ≤ bytes := h3
+
+example : capacityOf 100 16 = some 6 ∧ capacityOf 15 16 = none ∧ capacityOf 16 16 = some 1 ∧ capacityOf 5 0 = none := by decide
+
 end VtProps.C20
